@@ -1,1 +1,272 @@
-/-! C02 — property theorems (none yet). -/
+import Req.C02.RespSM
+import Req.C02.H1Body
+import Req.Lemmas.C02Reader
+import Req.Lemmas.C02Bufio
+import Req.Lemmas.C02H1Simple
+import Req.Lemmas.C02Resp
+/-!
+C02 — response fidelity: property theorems.
+
+Part A (`read_split_independent_*`): the HTTP/1.1 body readers, as incremental automata over
+a `bufio.Reader` fed by a connection that delivers the wire in ANY segmentation, hand the
+caller exactly the origin's body for EVERY sequence of caller read sizes.
+
+Part B (`observe_paths_agree` and its components): every way of observing a `req.Response`
+— auto-read cache (`ToBytes`/`Bytes`/`String`, any interleaving, any number of times),
+re-reading the restored `Body` with any read sizes, streaming without auto-read with any read
+sizes, streaming part and then `ToBytes`, `SetOutput`/`SetOutputFile` — shows the same byte
+string, namely the transport body, whatever segmentation the transport delivers it in.
+-/
+namespace Req.Props.C02
+open Req.Proto Req.C02
+
+/-! ## Part A — HTTP/1.1 body readers -/
+
+/-- **read_split_independent, declared length.** The origin wrote `body` (`n = |body| > 0`
+bytes, `Content-Length: n`) followed by anything (`rest`: the next response, or nothing).
+For every segmentation `segs` of that wire, every way the connection ends afterwards, every
+buffer size and every sequence `ks` of caller read sizes (zeros allowed): the bytes handed out
+are a prefix of `body` and the connection reader stands exactly behind them. -/
+theorem read_split_independent_length_prefix (body rest : Bytes) (hn : 0 < body.length)
+    (segs : List Bytes) (hsegs : segs.flatten = body ++ rest) (fin : NetEnd) (cap : Nat)
+    (ks : List Nat) :
+    let run := (H1Body.new (.length body.length) (Bufio.new cap ⟨segs, fin⟩)).runReads ks
+    (∃ t, body = outBytes run.1 ++ t) ∧
+    run.2.br.rem = (body ++ rest).drop (outBytes run.1).length := by
+  have hinv : LimInv (H1Body.new (.length body.length) (Bufio.new cap ⟨segs, fin⟩)) :=
+    ⟨body.length, rfl, hn, by simp [H1Body.new, Bufio.new_rem, hsegs], rfl, rfl, Bufio.new_wf _ _⟩
+  have hexp : limExp (H1Body.new (.length body.length) (Bufio.new cap ⟨segs, fin⟩)) = body := by
+    simp [limExp, H1Body.new, Bufio.new_rem, hsegs]
+  refine ⟨?_, ?_⟩
+  · have := runReads_prefix limited_refines ks _ hinv
+    rw [hexp] at this
+    exact this
+  · have := limited_run_rem ks _ hinv
+    simpa [H1Body.runReads, H1Body.new, Bufio.new_rem, hsegs] using this
+
+/-- **read_split_independent, declared length, complete read.** If moreover every read size
+is positive and the caller reads often enough (more reads than body bytes always suffices),
+the run ends with `io.EOF`, the bytes are EXACTLY `body`, and exactly `rest` is left on the
+connection for the next response. -/
+theorem read_split_independent_length (body rest : Bytes) (hn : 0 < body.length)
+    (segs : List Bytes) (hsegs : segs.flatten = body ++ rest) (fin : NetEnd) (cap : Nat)
+    (ks : List Nat) (hpos : ∀ k ∈ ks, 0 < k) (hlen : body.length < ks.length) :
+    let run := (H1Body.new (.length body.length) (Bufio.new cap ⟨segs, fin⟩)).runReads ks
+    outBytes run.1 = body ∧ lastErr run.1 = some .eof ∧ run.2.br.rem = rest := by
+  have hinv : LimInv (H1Body.new (.length body.length) (Bufio.new cap ⟨segs, fin⟩)) :=
+    ⟨body.length, rfl, hn, by simp [H1Body.new, Bufio.new_rem, hsegs], rfl, rfl, Bufio.new_wf _ _⟩
+  have hexp : limExp (H1Body.new (.length body.length) (Bufio.new cap ⟨segs, fin⟩)) = body := by
+    simp [limExp, H1Body.new, Bufio.new_rem, hsegs]
+  obtain ⟨e, he⟩ := runReads_terminates limited_refines limited_progress ks _ hinv hpos (by rw [hexp]; exact hlen)
+  -- the terminal error is EOF: under the invariant nothing else is ever reported
+  have heof : e = .eof := by
+    clear hexp hlen hpos
+    generalize H1Body.new (.length body.length) (Bufio.new cap ⟨segs, fin⟩) = bd at hinv he
+    induction ks generalizing bd with
+    | nil => simp [runReads, lastErr] at he
+    | cons k ks ih =>
+      unfold runReads at he
+      rcases hr : H1Body.read bd k with ⟨⟨d, e'⟩, bd'⟩
+      rw [hr] at he
+      cases e' with
+      | some e' =>
+        simp only [lastErr_single, Option.some.injEq] at he
+        subst he
+        exact limited_only_eof bd k hinv d _ bd' hr
+      | none =>
+        simp only at he
+        have hi := (limited_refines.step_ok bd k d bd' hinv hr).1
+        have hne : (runReads H1Body.read bd' ks).1 ≠ [] := by
+          intro h0; rw [h0] at he; simp [lastErr] at he
+        rw [lastErr_cons_ne _ _ hne] at he
+        exact ih bd' hi he
+  subst heof
+  have hout := runReads_eof limited_refines ks _ hinv .eof he rfl
+  rw [hexp] at hout
+  refine ⟨hout, he, ?_⟩
+  have := limited_run_rem ks _ hinv
+  simp only [H1Body.runReads]
+  rw [this, hout]
+  simp [H1Body.new, Bufio.new_rem, hsegs]
+
+/-- **read_split_independent, body ended by connection close.** The origin wrote `body` and
+closed the connection. For every segmentation and every read-size sequence the caller gets a
+prefix of `body`; a run that ends with `io.EOF` delivered exactly `body`; and with positive
+read sizes and enough reads it does end, with `io.EOF`. -/
+theorem read_split_independent_close (body : Bytes) (segs : List Bytes) (hsegs : segs.flatten = body)
+    (cap : Nat) (ks : List Nat) :
+    let run := (H1Body.new .close (Bufio.new cap ⟨segs, .eof⟩)).runReads ks
+    (∃ t, body = outBytes run.1 ++ t) ∧
+    (lastErr run.1 = some .eof → outBytes run.1 = body) ∧
+    ((∀ k ∈ ks, 0 < k) → body.length < ks.length → ∃ e, lastErr run.1 = some e) := by
+  have hinv : CloseInv (H1Body.new .close (Bufio.new cap ⟨segs, .eof⟩)) :=
+    ⟨rfl, rfl, rfl, Bufio.new_wf _ _, rfl⟩
+  have hexp : closeExp (H1Body.new .close (Bufio.new cap ⟨segs, .eof⟩)) = body := by
+    simp [closeExp, H1Body.new, Bufio.new_rem, hsegs]
+  refine ⟨?_, ?_, ?_⟩
+  · have := runReads_prefix close_refines ks _ hinv
+    rw [hexp] at this; exact this
+  · intro he
+    have := runReads_eof close_refines ks _ hinv .eof he rfl
+    rw [hexp] at this; exact this
+  · intro hpos hlen
+    exact runReads_terminates close_refines close_progress ks _ hinv hpos (by rw [hexp]; exact hlen)
+
+/-! Non-vacuity: a 5-byte body + the start of the next response, delivered in 3 segments that
+cut through the body, read with sizes 2,1,1,4,9. -/
+example :
+    ((H1Body.new (.length 5) (Bufio.new 4096 ⟨[[104, 101], [108], [108, 111, 72, 84]], .eof⟩)).runReads
+        [2, 1, 1, 4, 9]).1 =
+      [([104, 101], none), ([108], none), ([108], none), ([111], some .eof)] := by decide
+
+/-! ## Part B — the caller-side `Response` machine -/
+
+theorem restored_flatten (B : Bytes) : (Body.restored B).chunks.flatten = B := by
+  unfold Body.restored
+  cases B <;> simp
+
+/-- A config in which `Client.roundTrip` auto-reads. -/
+def AutoCfg (cfg : Cfg) : Prop := cfg.clientDisable = false ∧ cfg.reqDisable = false ∧ cfg.save = false
+
+/-- **Auto-read, any interleaving.** Whatever segmentation `cks` the transport delivers the
+body in, after auto-read EVERY sequence of observation ops — `ToBytes`, `ToString`, `Bytes`,
+`String`, `Body.Read(n)`, `io.ReadAll(Body)`, `Body.Close`, in any order, any number of times
+— shows the full body `cks.flatten` in every cache-reading op, and what is streamed from the
+restored `Body` in between is a prefix of the same bytes. -/
+theorem auto_read_views (cfg : Cfg) (hcfg : AutoCfg cfg) (st : Nat) (hst : 199 < st)
+    (cks : List Bytes) (ops : List Op) :
+    let r := afterRoundTrip cfg st (Body.transport cks .eof)
+    r.err = none ∧ r.out = none ∧
+    (∀ x ∈ (r.run ops).1, okAuto cks.flatten x) ∧
+    ∃ t, cks.flatten = streamedOf (r.run ops).1 ++ t := by
+  obtain ⟨h1, h2, h3⟩ := hcfg
+  simp only [afterRoundTrip_auto cfg st cks h1 h2 h3 hst]
+  have hinv : AutoInv cks.flatten
+      { status := st, err := none, cache := some cks.flatten,
+        body := some (Body.restored cks.flatten), out := none } [] := by
+    refine ⟨rfl, rfl, Body.restored cks.flatten, rfl, rfl, rfl, ?_⟩
+    simp only [List.nil_append]
+    exact restored_flatten _
+  obtain ⟨hall, t, ht⟩ := auto_run cks.flatten ops _ [] hinv
+  exact ⟨by trivial, by trivial, hall, t, by simpa using ht⟩
+
+/-- **Re-read after auto-read, any read sizes.** Streaming the restored `Body` with any
+sequence of read sizes yields a prefix of the body; ending with `io.EOF` means exactly the
+body; positive sizes and enough reads do end, and with `io.EOF`. -/
+theorem reread_exact (B : Bytes) (ks : List Nat) :
+    let rs := (runReads Body.readO (Body.restored B) ks).1
+    (∃ t, B = outBytes rs ++ t) ∧ (lastErr rs = some .eof → outBytes rs = B) ∧
+    ((∀ k ∈ ks, 0 < k) → B.length < ks.length → ∃ e, lastErr rs = some e) := by
+  have hinv : BodyInvNE (Body.restored B) := by
+    refine ⟨rfl, ?_⟩
+    intro c hc
+    simp only [Body.restored] at hc
+    split at hc
+    · simp at hc
+    · simp only [List.mem_singleton] at hc
+      subst hc
+      intro h0; simp_all
+  have hexp : bodyExp (Body.restored B) = B := restored_flatten B
+  refine ⟨?_, ?_, ?_⟩
+  · have := runReads_prefix body_refines_ne ks _ hinv
+    rw [hexp] at this; exact this
+  · intro he
+    have := runReads_eof body_refines_ne ks _ hinv .eof he rfl
+    rw [hexp] at this; exact this
+  · intro hpos hlen
+    exact runReads_terminates body_refines_ne body_progress ks _ hinv hpos (by rw [hexp]; exact hlen)
+
+/-- **SetOutput / SetOutputFile.** Whatever the segmentation, the other switches and the
+status: exactly the body is written to the writer / file and no error is recorded. -/
+theorem save_output_exact (cfg : Cfg) (hs : cfg.save = true) (st : Nat) (cks : List Bytes) :
+    let r := afterRoundTrip cfg st (Body.transport cks .eof)
+    r.out = some cks.flatten ∧ r.err = none := by
+  simp [afterRoundTrip_save cfg st cks hs]
+
+/-- A config / status for which `Client.roundTrip` leaves the transport body to the caller. -/
+def StreamCfg (cfg : Cfg) (st : Nat) : Prop :=
+  cfg.save = false ∧ (cfg.clientDisable = true ∨ cfg.reqDisable = true ∨ st ≤ 199)
+
+/-- **Streaming without auto-read, any read sizes, then optionally `ToBytes`.** The caller
+gets the live transport body. For every segmentation and every read-size sequence: the
+streamed bytes are a prefix of the body; ending with `io.EOF` means exactly the body; and if
+the caller stops streaming at any point (no error yet) and calls `ToBytes`, the streamed
+bytes followed by what `ToBytes` returns are exactly the body. -/
+theorem stream_exact (cfg : Cfg) (st : Nat) (hcfg : StreamCfg cfg st) (cks : List Bytes) (ks : List Nat) :
+    let r := afterRoundTrip cfg st (Body.transport cks .eof)
+    r.cache = none ∧ r.err = none ∧ r.body = some (Body.transport cks .eof) ∧
+    (let run := runReads Body.readO (Body.transport cks .eof) ks
+     (∃ t, cks.flatten = outBytes run.1 ++ t) ∧
+     (lastErr run.1 = some .eof → outBytes run.1 = cks.flatten) ∧
+     (lastErr run.1 = none →
+        outBytes run.1 ++ (({ r with body := some run.2 } : Resp).toBytes).1.1 = cks.flatten ∧
+        (({ r with body := some run.2 } : Resp).toBytes).1.2 = .ok)) := by
+  obtain ⟨hs, hd⟩ := hcfg
+  simp only [afterRoundTrip_stream cfg st cks .eof hs hd]
+  refine ⟨by trivial, by trivial, by trivial, ?_, ?_, ?_⟩
+  · exact runReads_prefix body_refines ks _ (rfl : BodyInv (Body.transport cks .eof))
+  · intro he
+    exact runReads_eof body_refines ks _ (rfl : BodyInv (Body.transport cks .eof)) .eof he rfl
+  · intro hok
+    obtain ⟨hinv', hsplit⟩ := runReads_ok_split body_refines ks _ (rfl : BodyInv (Body.transport cks .eof)) hok
+    -- the stream's end marker is untouched by reads
+    have hfin : ∀ (ks : List Nat) (b : Body), b.closed = false →
+        (runReads Body.readO b ks).2.fin = b.fin := by
+      intro ks
+      induction ks with
+      | nil => intro b _; rfl
+      | cons k ks ih =>
+        intro b hb
+        unfold runReads
+        rcases hr : b.readO k with ⟨⟨d, e⟩, b'⟩
+        obtain ⟨_, hc', hf', _⟩ := Body.readO_spec b k hb d e b' hr
+        cases e with
+        | none => simp only; rw [ih b' hc', hf']
+        | some e => exact hf'
+    have hf := hfin ks (Body.transport cks .eof) rfl
+    rw [toBytes_rest st _ hinv' (by rw [hf]; rfl)]
+    exact ⟨hsplit.symm, rfl⟩
+
+/-- **observe_paths_agree.** One transport body `B`, delivered to four different requests in
+four arbitrary segmentations: (1) auto-read then any interleaving of cache ops, (2) re-read
+of the restored `Body` to EOF with any read sizes, (3) `SetOutput`/`SetOutputFile`,
+(4) streaming without auto-read to EOF with any read sizes. All four observe exactly `B`. -/
+theorem observe_paths_agree (B : Bytes)
+    (cks₁ cks₃ cks₄ : List Bytes) (h₁ : cks₁.flatten = B) (h₃ : cks₃.flatten = B) (h₄ : cks₄.flatten = B)
+    (cfgA cfgS cfgD : Cfg) (stA stS stD : Nat)
+    (hA : AutoCfg cfgA) (hstA : 199 < stA) (hS : cfgS.save = true) (hD : StreamCfg cfgD stD)
+    (ops : List Op) (ks₂ ks₄ : List Nat)
+    (he₂ : lastErr (runReads Body.readO (Body.restored B) ks₂).1 = some .eof)
+    (he₄ : lastErr (runReads Body.readO (Body.transport cks₄ .eof) ks₄).1 = some .eof) :
+    (∀ x ∈ ((afterRoundTrip cfgA stA (Body.transport cks₁ .eof)).run ops).1, okAuto B x) ∧
+    outBytes (runReads Body.readO (Body.restored B) ks₂).1 = B ∧
+    (afterRoundTrip cfgS stS (Body.transport cks₃ .eof)).out = some B ∧
+    outBytes (runReads Body.readO (Body.transport cks₄ .eof) ks₄).1 = B := by
+  refine ⟨?_, ?_, ?_, ?_⟩
+  · have := (auto_read_views cfgA hA stA hstA cks₁ ops).2.2.1
+    rw [h₁] at this; exact this
+  · exact (reread_exact B ks₂).2.1 he₂
+  · have := (save_output_exact cfgS hS stS cks₃).1
+    rw [h₃] at this; exact this
+  · have := (stream_exact cfgD stD hD cks₄ ks₄).2.2.2.2.1 he₄
+    rw [h₄] at this; exact this
+
+/-! Non-vacuity: body "hello" delivered as "he","","llo"; auto-read, then Bytes, Read(2),
+ToBytes, Read(9), Read(1): the cache ops show "hello", the reads stream "he","llo", EOF. -/
+example :
+    ((afterRoundTrip ⟨false, false, false⟩ 200 (Body.transport [[104, 101], [], [108, 108, 111]] .eof)).run
+        [.bytes, .read 2, .toBytes, .read 9, .read 1]).1 =
+      [(.bytes, .cached (some [104, 101, 108, 108, 111])),
+       (.read 2, .data [104, 101] .ok),
+       (.toBytes, .data [104, 101, 108, 108, 111] .ok),
+       (.read 9, .data [108, 108, 111] .ok),
+       (.read 1, .data [] .eof)] := by decide
+
+/-! Non-vacuity of the streaming hypotheses: DisableAutoReadResponse, reads 1,1 then ToBytes. -/
+example :
+    let r := afterRoundTrip ⟨false, true, false⟩ 200 (Body.transport [[104, 101], [108, 108, 111]] .eof)
+    (r.run [.read 1, .read 1, .toBytes, .bytes]).1 =
+      [(.read 1, .data [104] .ok), (.read 1, .data [101] .ok),
+       (.toBytes, .data [108, 108, 111] .ok), (.bytes, .cached (some [108, 108, 111]))] := by decide
+
+end Req.Props.C02
